@@ -67,6 +67,10 @@ RULE = (
     'as written)) for every position and context; compile-only: the statement '
     'equals the one compiled for the plain string "qzq" outside the literal '
     'and the literal decodes to s (StrLit!SameShape).  A string containing '
+    'positions = fact, list element, record field, ++ operand, flag default, '
+    'user flag, and argument of a built-in call (Element, Join, Greatest, '
+    'ToString, Format, Upper, Size, Like); literal forms "..", \'..\' with '
+    'escapes, \'..\' with lone backslashes, triple-quoted.  A string containing '
     'the documented parameter form ${...} with an undefined name may be '
     'rejected with a diagnostic or transported verbatim.  flags: '
     'FlagsSem!Allowed - acyclic configuration: exactly the full expansion with '
@@ -96,12 +100,23 @@ def _Selections(cfg):
   # and parameter forms) - all within the alphabet and the tier's bound.
   must = [s for s in ("';--", "*/", "/*", "\\'", "''", '"""'[:cfg['n']],
                       '%(a)', '{a}', '${a}'[:cfg['n']], '$a', "a\n-",
-                      '\\\\' + "'", '`a`', "é\U0001D11E", "'a'", '${}')
+                      '\\\\' + "'", '`a`', "\u00e9\U0001D11E", "'a'", '${}')
           if len(s) <= cfg['n']]
+  # Idioms with characters outside the enumerated alphabet (C10Trace!
+  # ExtraChars): python-format and str.format placeholders as data, and a
+  # lone backslash before Latin-1 / other BMP / astral characters.
+  must += ['%s', ' %s ', '%d{1}', '{0}', '{0}{1}', '%(a)s', '%%s', '{{0}}',
+           '\\\u0414', 'a\\\u0414\\\u2192', '\\\u2192', '\\\u00e9',
+           '\\\U0001D11E', "\\\u0414'"]
   for s in must:
     if s not in sample and s not in full:
       sample.append(s)
   return alls, full, sample
+
+
+# Built-in call positions that are exhaustive like the others (one per template
+# style + the pass-through); the rest take the shortest strings and the sample.
+FN_FULL = ('element', 'joinsep', 'format', 'upper')
 
 
 def _PipeTasks(cfg, full, sample):
@@ -112,19 +127,32 @@ def _PipeTasks(cfg, full, sample):
   cfg['pipe_nested_full'] and sampled beyond."""
   tasks = []
   allf = [s for s in full if len(s) <= cfg['pipe_allforms']]
-  tasks += strlit.PipeTasks(allf, cfg['pipe_batch'])
+  tasks += strlit.PipeTasks(allf, cfg['pipe_batch'],
+                            positions=strlit.POSITIONS)
   rest = [s for s in full if len(s) > cfg['pipe_allforms']] + sample
   in_sample = set(sample)
+  fn_rest = [s for s in full if len(s) <= cfg['pipe_allforms']]
 
   def Primary(s, pos, ctx):
+    if (pos in strlit.FN_EXPR and pos not in FN_FULL and len(s) > 1 and
+        s not in in_sample):
+      return []
     if s not in in_sample and (
         (ctx == 'nested' and len(s) > cfg['pipe_nested_full']) or
         (pos not in cfg['pipe_full_positions'] and
          len(s) > cfg['pipe_nested_full'])):
       return []
+    # How a literal is read does not depend on where it stands: the
+    # lone-backslash writing and the triple-quoted form are exercised in a
+    # few positions only.
     return ['argv', strlit.PrimaryForm(s)] + (
-        ['tq'] if strlit.ShardOf(s, 5) == 0 else [])
+        ['sqraw'] if (pos, ctx) in (('fact', 'top'), ('concat', 'nested'),
+                                    ('upper', 'top')) else []) + (
+        ['tq'] if strlit.ShardOf(s, 5) == 0 and pos not in strlit.FN_EXPR
+        else [])
   tasks += strlit.PipeTasks(rest, cfg['pipe_batch'], forms_for=Primary)
+  tasks += strlit.PipeTasks(fn_rest, cfg['pipe_batch'], forms_for=Primary,
+                            positions=strlit.FN_POSITIONS)
   return tasks
 
 
@@ -161,7 +189,7 @@ def _StringSignatures(rec, verdict, unit_bad=frozenset()):
   sig = {'k': rec['k'], 'why': why}
   detail = rec.get('detail', '')
   if why == 'value-differs':
-    exp = ('a' + s + 'a') if rec['pos'] == 'concat' else s
+    exp = ('a' + s + 'a') if rec['pos'] in ('concat', 'joinsep') else s
     sig['indent_only'] = _IndentOnly(rec['got'], exp)
   if why.startswith('status-reject') or why.startswith('param-form'):
     sig['dollar_brace'] = '${' in s
@@ -354,10 +382,16 @@ def Run(tier):
   if judged != len(srecs) or fl_judged != len(frecs):
     machinery.append('TLC judged %d/%d string and %d/%d flag records' % (
         judged, len(srecs), fl_judged, len(frecs)))
-  for pos in strlit.POSITIONS:
-    for ctx in ('top', 'nested'):
+  for pos in strlit.POSITIONS + strlit.FN_POSITIONS:
+    for ctx in (('top',) if pos in strlit.FN_EXPR else ('top', 'nested')):
       if not per_pos.get('%s/%s' % (pos, ctx)):
         machinery.append('position %s/%s never exercised' % (pos, ctx))
+  per_dialect_fn = collections.Counter(
+      r['d'] for r in sql if r['pos'] in strlit.FN_EXPR and
+      r['status'] == 'ok')
+  for d in strlit.DIALECTS:
+    if not per_dialect_fn.get(d):
+      machinery.append('built-in call positions never compiled for %s' % d)
   for d in strlit.DIALECTS:
     if not per_dialect_sql.get(d):
       machinery.append('dialect %s never compiled' % d)
@@ -436,6 +470,8 @@ def Run(tier):
                           'per_form': dict(sorted(per_form.items())),
                           'per_status': dict(sorted(per_status.items()))},
       'compile_only': {'records': len(sql), 'programs': len(stasks),
+                       'per_position': dict(sorted(collections.Counter(
+                           r['pos'] for r in sql).items())),
                        'per_dialect': dict(sorted(per_dialect_sql.items())),
                        'per_status': dict(sorted(sql_status.items()))},
       'flags': {'models': model_stats, 'cases': len(cases),
